@@ -1,6 +1,7 @@
 package oxc
 
 import (
+	"context"
 	"fmt"
 	"sort"
 	"strings"
@@ -75,6 +76,10 @@ func Body(spec ScenarioSpec, mk func() []Oracle) func(s *vsched.Sched) {
 		}
 		obs := &Obs{}
 		specObs = obs
+		cancelCtx, cancelFn = nil, nil
+		if spec.Fault == "client-cancel" {
+			cancelCtx, cancelFn = context.WithCancel(context.Background())
+		}
 		oracles := mk()
 		for _, o := range oracles {
 			o.Attach(c, obs)
@@ -188,6 +193,10 @@ func clientLoop(c *Cluster, s *vsched.Sched, obs *Obs, spec ScenarioSpec, cl int
 	}
 }
 
+// cancelCtx is the context of client 0's first write in the client-cancel scenario.
+var cancelCtx context.Context
+var cancelFn context.CancelFunc
+
 func doWrite(c *Cluster, s *vsched.Sched, obs *Obs, cl int, key, val string) {
 	for attempt := 0; attempt < 3; attempt++ {
 		leader, _ := c.LeaderByStatus()
@@ -200,7 +209,11 @@ func doWrite(c *Cluster, s *vsched.Sched, obs *Obs, cl int, key, val string) {
 		v := fmt.Sprintf("%s.a%d", val, attempt)
 		op := &ClientOp{Client: cl, Kind: "put", Key: key, Value: v, Invoke: s.Steps(), Node: leader}
 		obs.Ops = append(obs.Ops, op)
-		resp, err := c.Write(leader, put(key, v))
+		ctx := context.Background()
+		if cancelCtx != nil && cl == 0 && attempt == 0 {
+			ctx = cancelCtx
+		}
+		resp, err := c.WriteCtx(ctx, leader, put(key, v))
 		op.Return = s.Steps()
 		if err != nil {
 			op.Unknown = true
@@ -348,6 +361,9 @@ func faultThread(c *Cluster, s *vsched.Sched, spec ScenarioSpec) {
 			}
 			_ = c.SC.SwapNode(c.Nodes[from].Addr, c.Nodes["n4"].Addr)
 		}
+	case "client-cancel":
+		// client 0 gives up on its first write at some point
+		cancelFn()
 	case "swap-unreachable":
 		// the coordinator cannot reach two members of the ensemble while it swaps the third
 		if c.SC != nil {
